@@ -414,3 +414,84 @@ Proof.
   intros Hl Hall Ht. rewrite (h_insert_newest h nw pos Hl Hall).
   apply (ms_positions_newest (sort_entries h) (nw, pos) t). cbn. exact Ht.
 Qed.
+
+(* ---------------- C05: until the next write of that servo's history ---------------- *)
+Definition hist_of (a : nat) (d : dev) : option (list entry) := option_map hist (nth_opt a (servos d)).
+Definition hist_writer (name : list Z) : bool := mem_s name [$"setpos"; $"stow"; $"clean"].
+
+Lemma hist_of_upd_other a a' f d : a' <> a -> hist_of a (upd_servo a' f d) = hist_of a d.
+Proof. intros H. unfold hist_of. rewrite nth_opt_upd_other by exact H. reflexivity. Qed.
+Lemma hist_of_upd_cab a a' c d : hist_of a (upd_servo a' (set_cab c) d) = hist_of a d.
+Proof.
+  destruct (Nat.eq_dec a' a) as [->|Hne]; [|apply hist_of_upd_other; exact Hne].
+  unfold hist_of, upd_servo. destruct (nth_opt a (servos d)) as [s|] eqn:E; [|rewrite E; reflexivity].
+  cbn [servos]. rewrite nth_opt_set_nth_same by (eapply nth_opt_Some_lt; exact E). reflexivity.
+Qed.
+
+(* a command addressed to another servo, or one that is not setpos / stow / clean, leaves the history
+   of servo a exactly as it is - whatever its outcome (reply, refusal, exception) *)
+Lemma ms_hist_frame_servo fx e d a a' s name num ps :
+  (a' <> a \/ hist_writer name = false) ->
+  hist_of a (fst (exec_servo fx e d a' s name num ps)) = hist_of a d.
+Proof.
+  intros H. unfold exec_servo.
+  destruct H as [Hne|Hw].
+  - repeat match goal with
+           | |- context [if ?x then _ else _] => destruct x eqn:?
+           | |- context [match ?x with _ => _ end] => destruct x eqn:?
+           end; cbn [fst]; try reflexivity; apply hist_of_upd_other; exact Hne.
+  - unfold hist_writer in Hw. cbn [mem_s existsb] in Hw.
+    apply orb_false_iff in Hw as [H1 Hw]. apply orb_false_iff in Hw as [H2 Hw]. apply orb_false_iff in Hw as [H3 _].
+    assert (E1 : zlist_eqb name $"setpos" = false).
+    { destruct (zlist_eqb name $"setpos") eqn:E; [|reflexivity]. apply zlist_eqb_eq in E. subst. discriminate H1. }
+    assert (E2 : zlist_eqb name $"stow" = false).
+    { destruct (zlist_eqb name $"stow") eqn:E; [|reflexivity]. apply zlist_eqb_eq in E. subst. discriminate H2. }
+    assert (E3 : zlist_eqb name $"clean" = false).
+    { destruct (zlist_eqb name $"clean") eqn:E; [|reflexivity]. apply zlist_eqb_eq in E. subst. discriminate H3. }
+    rewrite E1, E2, E3.
+    repeat match goal with
+           | |- context [if ?x then _ else _] => destruct x eqn:?
+           | |- context [match ?x with _ => _ end] => destruct x eqn:?
+           end; cbn [fst]; try reflexivity; apply hist_of_upd_cab.
+Qed.
+
+Definition touches (a : nat) (c : cmd) : bool :=
+  match c with
+  | KMsg name _ (PInt z :: _) => (Z.to_nat z =? a)%nat && hist_writer name
+  | _ => false
+  end.
+
+Lemma ms_hist_frame fx e d a c : touches a c = false -> hist_of a (fst (exec fx e d c)) = hist_of a d.
+Proof.
+  intros H. unfold exec. destruct c as [| |name num ps]; try reflexivity.
+  destruct ps as [|[z|b] rest]; try reflexivity.
+  destruct ((0 <=? z) && (z <? Z.of_nat (length (servos d)))); [|reflexivity].
+  destruct (nth_opt (Z.to_nat z) (servos d)) as [s|]; [|reflexivity].
+  apply ms_hist_frame_servo. cbn [touches] in H. apply andb_false_iff in H as [H|H].
+  - left. apply Nat.eqb_neq in H. exact H.
+  - right. exact H.
+Qed.
+
+Fixpoint exec_all (fx : bool) (e : env) (d : dev) (cs : list cmd) : dev :=
+  match cs with [] => d | c :: r => exec_all fx e (fst (exec fx e d c)) r end.
+
+Lemma ms_hist_stable fx e a : forall cs d,
+  Forall (fun c => touches a c = false) cs -> hist_of a (exec_all fx e d cs) = hist_of a d.
+Proof.
+  induction cs as [|c cs IH]; intros d H; cbn [exec_all]; [reflexivity|].
+  inversion H as [|? ? Hc Hcs]; subst. rewrite IH by exact Hcs. apply ms_hist_frame. exact Hc.
+Qed.
+
+(* setpos stamped now on a history without later entries, then any commands that are not
+   setpos / stow / clean of that servo, the clock at any t >= now: getpos reads the written values *)
+Theorem ms_setpos_now_until fx e d a s pos cs t :
+  nth_opt a (servos d) = Some s -> Z.of_nat (length (hist s)) < hist_cap ->
+  Forall (fun y => fst y <= now d) (hist s) -> now d <= t ->
+  Forall (fun c => touches a c = false) cs ->
+  let d1 := upd_servo a (set_hist (h_insert (hist s) (now d) pos)) d in
+  exists h, hist_of a (exec_all fx e d1 cs) = Some h /\ positions h t = Some pos.
+Proof.
+  intros Hs Hl Hall Ht Hcs d1. exists (h_insert (hist s) (now d) pos). split.
+  - rewrite ms_hist_stable by exact Hcs. unfold d1, hist_of. rewrite (nth_opt_upd_same a _ d s Hs). reflexivity.
+  - apply ms_insert_now_readback; assumption.
+Qed.
